@@ -563,5 +563,23 @@ pub fn run(ctx: &mut Ctx) {
             Err(p) => Verdict::Fail(format!("PANIC: {p}")),
         }
     });
+    // entries whose two sizes lie on different sides of 4 GiB, written (by raw copy from a hand-laid-out
+    // sparse source) at header offsets below and beyond 4 GiB: every combination of which of the three
+    // ZIP64 values the central record has to carry
+    #[derive(Clone, Debug, Serialize, Deserialize, Hash)]
+    struct SC(Vec<(u64, u64)>, u64);
+    let sc: Vec<SC> = vec![
+        SC(vec![((5 << 30) + 123, 1500)], G + 4242),
+        SC(vec![((5 << 30) + 123, 1500)], 0),
+        SC(vec![(G - 1, 77), (G, 78), (G + 1, 79)], G - 200),
+        SC(vec![(12, 12), (G + 7, 9)], (7 << 32) + 1),
+    ];
+    ctx.enumerate::<SC>("straddle_copy", sc.len() as u64, &|i| sc[i as usize].clone(), &|c: &SC, info: &mut Info| {
+        info.nontrivial = true;
+        match catch(|| super::c14::check_straddle(&c.0, c.1)) {
+            Ok(r) => Verdict::from_result(r),
+            Err(p) => Verdict::Fail(format!("PANIC: {p}")),
+        }
+    });
     ctx.max_shrink_iters = 2048;
 }
